@@ -77,6 +77,13 @@ structure InXOpts where
   sortKey : Option Text := none
   reverse : Bool := false
   batch : Option BatchP := none
+  /-- `sort_expr="…"`: its value (a string naming the key) is the sort key of this rendering; it wins over `sort=` -/
+  sortExpr : Option Expr := none
+  /-- `reverse_expr="…"`: the sequence is reversed when it is true (or when `reverse` is given as well) -/
+  reverseExpr : Option Expr := none
+  /-- batch parameters given by variable name, in the order `renderwb` resolves them (start, end, size, overlap,
+  orphan): (parameter, variable) -/
+  names : List (Text × Text) := []
   deriving Repr, Inhabited
 
 inductive Blk where
@@ -703,6 +710,34 @@ def batchStep (sv : SeqVars) (w : BWin) (i : Nat) : SeqVars :=
 def afterItem (sv : SeqVars) (w : BWin) (i : Nat) : SeqVars :=
   if i == w.first then { sv with started := false } else sv
 
+/-- what `int_param` makes of the value of a batch parameter given by name -/
+inductive PInt where
+  | ok (i : Int)
+  | bad            -- not a number and not a string: handed on as it is, `opt()` fails on it with TypeError
+  | valueError     -- a string that is not a numeral: `int(v)` raises
+
+def digitsVal : Text → Option Nat
+  | [] => none
+  | cs => if cs.all Char.isDigit then some (cs.foldl (fun a c => a * 10 + (c.toNat - 48)) 0) else none
+
+def paramInt : Val → PInt
+  | .int i => .ok i
+  | .bool b => .ok (if b then 1 else 0)
+  | .str ('-' :: cs) => (match digitsVal cs with | some n => .ok (-(n : Int)) | none => .valueError)
+  | .str cs => (match digitsVal cs with | some n => .ok n | none => .valueError)
+  | _ => .bad
+
+def setParam (bp : BatchP) (p : Text) (i : Int) : BatchP :=
+  if p = "start".toList then { bp with start := i }
+  else if p = "end".toList then { bp with end_ := i }
+  else if p = "size".toList then { bp with size := i }
+  else if p = "overlap".toList then { bp with overlap := i }
+  else if p = "orphan".toList then { bp with orphan := i }
+  else bp
+
+/-- `reverse_sequence` when asked for -/
+def applyReverse (rev : Bool) (xs : List Val) : List Val := if rev then xs.reverse else xs
+
 /-! ### the interpreter -/
 
 /-- what a probe sees of a frame: its kind, the keys of a dictionary, the id of an instance -/
@@ -1071,6 +1106,59 @@ def inBatch (env : Env) : Nat → SeqVars → InOpts → BatchP → BWin → Lis
     (res.1, { res.2 with stack := res.2.stack.drop (cache.length + 1) })
 termination_by structural fuel => fuel
 
+/-- the batch parameters given by variable name, resolved in order (`int_param`: `md[name]`, a string is converted
+with `int`).  For `start` every failure — an undefined name, a callable that raises, a string that is no numeral — is
+swallowed and 1 is taken; for the other parameters it propagates.  A value that is neither a number nor a string is
+handed on and makes `opt()` fail with TypeError after all parameters have been resolved (the flag) -/
+def resolveNames (env : Env) : Nat → List (Text × Text) → BatchP → Bool → St → Res (BatchP × Bool) × St
+  | 0, _, _, _, st => (.oom, st)
+  | _ + 1, [], bp, bad, st => (.ok (bp, bad), st)
+  | fuel + 1, (p, n) :: rest, bp, bad, st =>
+    let isStart := p == "start".toList
+    match getitem env fuel n true st with
+    | (.ok v, st') =>
+      (match paramInt v with
+       | .ok i => resolveNames env fuel rest (setParam bp p i) bad st'
+       | .bad => resolveNames env fuel rest bp true st'
+       | .valueError =>
+         if isStart then resolveNames env fuel rest (setParam bp p 1) bad st'
+         else (.raise ⟨"ValueError".toList, [Char.ofNat 0xFFFF]⟩, st'))   -- (CPython's message text is outside the model)
+    | (.raise e, st') =>
+      if isStart then resolveNames env fuel rest (setParam bp p 1) bad st' else (.raise e, st')
+    | (.ret v, st') =>
+      if isStart then resolveNames env fuel rest (setParam bp p 1) bad st' else (.ret v, st')
+    | (.oom, st') => (.oom, st')
+termination_by structural fuel => fuel
+
+/-- the sort key of this rendering: the value of `sort_expr` (a string), else the `sort=` attribute -/
+def evalSortKey (env : Env) : Nat → InXOpts → St → Res (Option Text) × St
+  | 0, _, st => (.oom, st)
+  | fuel + 1, x, st =>
+    match x.sortExpr with
+    | none => (.ok x.sortKey, st)
+    | some e =>
+      (match evalExpr env fuel e st with
+       | (.ok (.str s), st') => (.ok (some s), st')
+       | (.ok _, st') => (.raise ⟨"AttributeError".toList, "find".toList⟩, st')
+       | (.raise ex, st') => (.raise ex, st')
+       | (.ret v, st') => (.ret v, st')
+       | (.oom, st') => (.oom, st'))
+termination_by structural fuel => fuel
+
+/-- is the sequence reversed in this rendering?  `reverse_expr` true, or else the `reverse` attribute -/
+def evalReverse (env : Env) : Nat → InXOpts → St → Res Bool × St
+  | 0, _, st => (.oom, st)
+  | fuel + 1, x, st =>
+    match x.reverseExpr with
+    | none => (.ok x.reverse, st)
+    | some e =>
+      (match evalExpr env fuel e st with
+       | (.ok v, st') => (.ok (truthy v || x.reverse), st')
+       | (.raise ex, st') => (.raise ex, st')
+       | (.ret v, st') => (.ret v, st')
+       | (.oom, st') => (.oom, st'))
+termination_by structural fuel => fuel
+
 /-- the class a dtml-raise raises: by name (unknown names give RuntimeError), or by expression -/
 def raiseClass (env : Env) : Nat → Text → Option Expr → St → Option Text × St
   | 0, _, _, st => (none, st)              -- out of fuel
@@ -1175,32 +1263,51 @@ def renderBlk (env : Env) : Nat → Blk → St → Res (List Piece) × St
              | none => (.ok [], st'))
           | some xs =>
             -- sort_sequence / reverse_sequence work on a list of their own; the cache keeps the sequence as it was found
-            (match arrange env o x xs st' with
-             | (.ok ys, st1) =>
-               let sv : SeqVars := { items := ys, mapping := o.mapping, prefix_ := o.prefix_ }
-               let cache : List Frame := cacheOf src v
-               (match x.batch with
-                | none =>
-                  let (r, st2) := inLoop env fuel sv o body 0 { st1 with stack := (Frame.seq sv :: cache) ++ st1.stack }
-                  let st3 := { st2 with stack := st2.stack.drop (Frame.seq sv :: cache).length }
-                  (match r with
-                   | .ok ps =>
-                     (match joinUnicode env ps with
-                      | .ok p => (.ok (one p), st3)
-                      | .raise e => (.raise e, st3)
-                      | _ => (.oom, st3))
-                   | .raise e => (.raise e, st3)
-                   | .ret x => (.ret x, st3)
-                   | .oom => (.oom, st3))
-                | some bp =>
-                  let w := bwinOf bp ys.length
-                  -- `md['QUERY_STRING']` inside try/except: whatever it does is swallowed (its events stay)
-                  (match getitem env fuel (txt "QUERY_STRING") true st1 with
-                   | (.oom, st2) => (.oom, st2)
-                   | (_, st2) => oneRes (inBatch env fuel (batchInit sv w) o bp w body els cache st2)))
-             | (.raise e, st1) => (.raise e, st1)
-             | (.ret x, st1) => (.ret x, st1)
-             | (.oom, st1) => (.oom, st1)))
+            -- sort_expr is evaluated, the sequence sorted (key callables are called), then reverse_expr is evaluated
+            (match evalSortKey env fuel x st' with
+             | (.ok key, sA) =>
+               (match sortPart env o { x with sortKey := key } xs sA with
+                | (.ok sorted, sB) =>
+                  (match evalReverse env fuel x sB with
+                   | (.ok rev, st1) =>
+                     let ys := applyReverse rev sorted
+                     let sv : SeqVars := { items := ys, mapping := o.mapping, prefix_ := o.prefix_ }
+                     let cache : List Frame := cacheOf src v
+                     (match x.batch with
+                      | none =>
+                        let (r, st2) := inLoop env fuel sv o body 0 { st1 with stack := (Frame.seq sv :: cache) ++ st1.stack }
+                        let st3 := { st2 with stack := st2.stack.drop (Frame.seq sv :: cache).length }
+                        (match r with
+                         | .ok ps =>
+                           (match joinUnicode env ps with
+                            | .ok p => (.ok (one p), st3)
+                            | .raise e => (.raise e, st3)
+                            | _ => (.oom, st3))
+                         | .raise e => (.raise e, st3)
+                         | .ret x => (.ret x, st3)
+                         | .oom => (.oom, st3))
+                      | some bp0 =>
+                        (match resolveNames env fuel x.names bp0 false st1 with
+                         | (.ok (bp, bad), sP) =>
+                           if bad then (.raise ⟨"TypeError".toList, []⟩, sP)
+                           else
+                           let w := bwinOf bp ys.length
+                           -- `md['QUERY_STRING']` inside try/except: whatever it does is swallowed (its events stay)
+                           (match getitem env fuel (txt "QUERY_STRING") true sP with
+                            | (.oom, st2) => (.oom, st2)
+                            | (_, st2) => oneRes (inBatch env fuel (batchInit sv w) o bp w body els cache st2))
+                         | (.raise e, sP) => (.raise e, sP)
+                         | (.ret x, sP) => (.ret x, sP)
+                         | (.oom, sP) => (.oom, sP)))
+                   | (.raise e, st1) => (.raise e, st1)
+                   | (.ret x, st1) => (.ret x, st1)
+                   | (.oom, st1) => (.oom, st1))
+                | (.raise e, sB) => (.raise e, sB)
+                | (.ret x, sB) => (.ret x, sB)
+                | (.oom, sB) => (.oom, sB))
+             | (.raise e, sA) => (.raise e, sA)
+             | (.ret x, sA) => (.ret x, sA)
+             | (.oom, sA) => (.oom, sA)))
        | (.raise e, st') => (.raise e, st')
        | (.ret v, st') => (.ret v, st')
        | (.oom, st') => (.oom, st'))
